@@ -123,7 +123,8 @@ class ContextualObject(pg_object.Object):
 
   def _on_bound(self):
     super()._on_bound()
-    self._contextual_overrides = threading.local()
+    if self.__dict__.get('_contextual_overrides', None) is None:
+      self._contextual_overrides = threading.local()
 
   def _sym_inferred(self, key: str, **kwargs):
     """Override to allow attribute to access scoped value.
